@@ -259,7 +259,8 @@ stage("lowhigh_stream_cutoff", extra=("param",),
   (lambda P, i, p: getattr(P.lf, p["w"])[p["k"]](S(P, i[1]))(i[0]),
    lambda i, p: M.m_lockstep(i)))
 stage("resonator_stream", extra=("param",),
-      params=lambda W: {"k": W.pick("k", ["poles_exp", "z_exp"])})(
+      params=lambda W: {"k": W.pick("k", ["poles_exp", "z_exp",
+                                          "freq_poles_exp", "freq_z_exp"])})(
   (lambda P, i, p: P.lf.resonator[p["k"]](S(P, i[1]), .05)(i[0]),
    lambda i, p: M.m_lockstep(i)))
 stage("tv_fir", extra=("param",))(
@@ -651,4 +652,15 @@ stage("cascade_with_callable")(
 stage("parallel_with_callable")(
   (lambda P, i, p: P.lf.ParallelFilter(
     [make_filter(P, "iir"), lambda sig, **kw: P.ls.Stream(sig) + 1])(i[0]),
+   lambda i, p: M.m_each(i)))
+
+
+def _append_hub(P, i, p):
+  hub = P.ls.thub(S(P, i[0]), 2)
+  return P.lit.izip(P.ls.Stream(hub), P.ls.Stream([]).append(hub))
+
+
+stage("append_hub_use", prod="tup")((_append_hub, lambda i, p: M.m_each(i)))
+stage("tee_of_stream_pair", prod="tup")(
+  (lambda P, i, p: P.lit.izip(*P.lit.tee(S(P, i[0]), 2)),
    lambda i, p: M.m_each(i)))
